@@ -19,29 +19,47 @@ ASSUMPTIONS = [
 WORDS = ["amber", "brook", "cedar", "delta", "ember", "fjord", "grove", "haven"]
 
 
-def gen_part(rng, px):
-    """a self-contained part: own globals, knots, a tunnel, glue lines, sticky/once-only choices"""
+def gen_part(rng, px, temps=True):
+    """a self-contained part: own globals, knots, a tunnel, glue lines, sticky/once-only choices and (temps=True)
+    temporary variables that are declared before a pause (end of line / choice point) and read or re-assigned
+    after it, in the knot, in the tunnel (one frame deeper) and inside a function call"""
     w = lambda: rng.choice(WORDS)
+    tv = f"{px}t"
+    rd = lambda p=0.7: (f" {{{tv}}}" if temps and rng.random() < p else "")
     lines = []
     glue = " <>" if rng.random() < 0.6 else ""
-    lines += [f"=== {px}start ===",
-              f"{px} {w()} {{{px}n}}{glue}",
-              f"{w()} line",
+    lines += [f"=== {px}start ==="]
+    if temps:
+        lines += [f"~ temp {tv} = {rng.randint(3, 9)}"]
+    lines += [f"{px} {w()} {{{px}n}}{glue}",
+              f"{w()} line{rd(0.8)}",
               f"~ {px}n = {px}n + 1"]
+    if temps and rng.random() < 0.5:
+        lines += [f"~ {tv} = {tv} + {px}n"]
     if rng.random() < 0.6:
         lines += [f"-> {px}tun ->"]
+        if temps and rng.random() < 0.6:
+            lines += [f"back {w()}{rd(1.0)}"]
     if rng.random() < 0.4:
         lines += [f"<- {px}side"]
-    lines += [f"* [{px} once {w()}] took once {{{px}n}}",
-              f"  ~ {px}flag = true",
-              f"  -> {px}start",
-              f"+ [{px} sticky {w()}] sticky {{{px}start}}",
+    lines += [f"* [{px} once {w()}] took once {{{px}n}}{rd()}",
+              f"  ~ {px}flag = true"]
+    if temps and rng.random() < 0.4:
+        lines += [f"  ~ {tv} = {tv} * 2", f"  then {w()} {{{tv}}}"]
+    lines += [f"  -> {px}start",
+              f"+ [{px} sticky {w()}] sticky {{{px}start}}{rd()}",
               f"  -> {px}start",
               f"* {{{px}n > 2}} [{px} leave] -> {px}end",
-              f"=== {px}tun ===",
-              f"tunnel {w()} {{&one|two|three}}",
-              f"~ {px}n = {px}n * 2",
-              "->->",
+              f"=== {px}tun ==="]
+    if temps:
+        lines += [f"~ temp {px}u = {px}n + {rng.randint(1, 4)}"]
+        if rng.random() < 0.5:
+            lines += [f"enter {w()}"]
+    lines += [f"tunnel {w()} {{&one|two|three}}" + (f" {{{px}u}}" if temps else ""),
+              f"~ {px}n = {px}n * 2"]
+    if temps and rng.random() < 0.4:
+        lines += [f"leave {w()} {{{px}f({px}u)}}"]
+    lines += ["->->",
               f"=== {px}side ===",
               f"side {w()}",
               f"+ [{px} from side] -> {px}end",
@@ -49,16 +67,23 @@ def gen_part(rng, px):
               f"=== {px}end ===",
               f"{px} done {{{px}flag}} {{{px}n}}",
               "-> END"]
+    if temps:
+        lines += [f"=== function {px}f(x) ===",
+                  f"~ temp y = x + 1",
+                  f"~ return y * 2"]
     decls = [f"VAR {px}n = {rng.randint(0, 3)}", f"VAR {px}flag = false"]
     return decls, lines
 
 
-def gen_program(rng, nparts):
+def gen_program(rng, nparts, temps=None):
+    """temps: per-part switch (None: drawn per part, mostly on)"""
     decls, body = [], []
     for i in range(nparts):
-        d, b = gen_part(rng, "abc"[i] + "_")
+        t = (rng.random() < 0.8) if temps is None else temps
+        d, b = gen_part(rng, "abc"[i] + "_", temps=t)
         decls += d; body += b
-    return "\n".join(decls + ["Main line.", "-> DONE"] + body) + "\n"
+    # the root is what a freshly created flow runs (used by the "third flow" detours)
+    return "\n".join(decls + ["~ temp r = 1", "Main line {r}.", "Second main {r}.", "-> DONE"] + body) + "\n"
 
 
 def interleavings(a, b, limit, rng):
@@ -95,6 +120,99 @@ def flow_lines(res_lines, tags):
     return out
 
 
+EXTRA_KINDS = ["save", "remove-third", "switch-back", "remove-current", "remove-current", "remove-current-ran"]
+
+
+def sw_op(name):
+    """host op that makes flow `name` current (None = the default flow)"""
+    return ["SWITCH_DEFAULT"] if name is None else ["SWITCH", name]
+
+
+def build_interleaved(rng, il, names, extras_at, remove_finished):
+    """il: [(part, op)], names: {part: flow name or None (= the default flow)}; extras_at: {position: kind}.
+    Returns (script, tags, lastx): tags[i] = part whose op produced transcript line i (None: scaffolding),
+    lastx[i] = kind of the most recent scaffolding detour before line i (for the class key)."""
+    script, tags, lastx = [], [None], [None]          # line 0 is NEW
+    cur, lx = None, None                              # a new story is in its default flow
+    remaining = {}
+    for who, _ in il:
+        remaining[who] = remaining.get(who, 0) + 1
+
+    def emit(ops, tag=None):
+        for o in ops:
+            script.append(o); tags.append(tag); lastx.append(lx)
+
+    for pos, (who, op) in enumerate(il):
+        nf = names[who]
+        kind = extras_at.get(pos)
+        if kind == "save":
+            lx = kind; emit([["SAVE", "s"], ["LOADNEW", "s"]])
+        elif kind == "remove-third":            # a third flow is created, left, then removed while not current
+            lx = kind; emit([["SWITCH", "Fz"], sw_op(nf), ["REMOVE_FLOW", "Fz"]]); cur = nf
+        elif kind == "switch-back":             # a detour through another flow and back
+            lx = kind
+            emit([["SWITCH", "Fz"], sw_op(nf)] if nf is None else [["SWITCH_DEFAULT"], sw_op(nf)]); cur = nf
+        elif kind == "remove-current":          # a third flow is created and removed WHILE CURRENT: lands on default
+            lx = kind; emit([["SWITCH", "Fz"], ["REMOVE_FLOW", "Fz"]]); cur = None
+        elif kind == "remove-current-ran":      # same, after the third flow produced a line of the root content
+            lx = kind; emit([["SWITCH", "Fz"], ["CONT"], ["REMOVE_FLOW", "Fz"]]); cur = None
+        if cur != nf:
+            emit([sw_op(nf)]); cur = nf
+        emit([op], who)
+        remaining[who] -= 1
+        if remaining[who] == 0 and nf is not None and who in remove_finished and pos + 1 < len(il):
+            # the host is done with a named flow and removes it while it is still the current one
+            lx = "remove-finished-current"; emit([["REMOVE_FLOW", nf]]); cur = None
+    return script, tags, lastx
+
+
+# fixed regression inputs (run on every tier in addition to the generated ones):
+# (ink, {part: flow name}, interleaving [(part, op)], extras_at, remove_finished)
+REGRESSION = [
+    # a temporary of the default flow declared before a pause and read after another flow was removed while current
+    ("""VAR g = 1
+Main line.
+-> DONE
+=== a_start ===
+~ temp t = 5
+first {g}
+second {t}
+~ t = t + 1
+third {t}
+-> END
+=== b_start ===
+~ temp u = 7
+other {u}
+more {u}
+-> END
+""", {"a": None, "b": "Fb"},
+     [("a", ["PATH", "a_start", True]), ("a", ["CONT"]), ("b", ["PATH", "b_start", True]), ("b", ["CONT"]),
+      ("a", ["CONT"]), ("a", ["CONT"])], {}, {"b"}),
+    ("""VAR g = 1
+Main line.
+-> DONE
+=== a_start ===
+~ temp t = 5
+first {g}
+* [go] went {t}
+  ~ t = t * 2
+  now {t}
+  -> END
+=== b_start ===
+other
+-> END
+""", {"a": None, "b": "Fb"},
+     [("a", ["PATH", "a_start", True]), ("a", ["CONT"]), ("b", ["PATH", "b_start", True]), ("a", ["CHOOSE", 0]),
+      ("b", ["CONT"]), ("a", ["CONT"]), ("a", ["CONT"])], {3: "remove-current", 5: "remove-current-ran"}, {"b"}),
+]
+
+
+def solo_case(cid, src, part, name, ops):
+    pre = [] if name is None else [["SWITCH", name]]
+    case = dict(id=cid, ink=src, seed=42, fuel=30000, script=pre + ops + [["STACKINFO"]])
+    return case, dict(kind="solo", flow=part, tags=[None] * (1 + len(pre)) + [part] * len(ops) + [None])
+
+
 def run(ctx):
     exe = vlib.build_harness()
     sw = engine.current_switches()
@@ -102,6 +220,16 @@ def run(ctx):
     pr = ctx.proof("theories/Props/C10.v")
     nprog = 6 if ctx.quick() else 40
     cases, meta = [], {}
+    kinds_used = {}
+    for n, (src, names, il, extras_at, remfin) in enumerate(REGRESSION):
+        pid = f"r{n}"
+        for part, name in names.items():
+            c, m = solo_case(f"{pid}|solo{part}", src, part, name, [op for w_, op in il if w_ == part])
+            cases.append(c); meta[c["id"]] = m
+        script, tags, lastx = build_interleaved(ctx.rng, il, names, extras_at, remfin)
+        cid = f"{pid}|il1"
+        cases.append(dict(id=cid, ink=src, seed=42, fuel=30000, script=script))
+        meta[cid] = dict(kind="il", n=pid, tags=tags, lastx=lastx, flows=list(names))
     for n in range(nprog):
         nparts = 2 if (ctx.quick() or ctx.rng.random() < 0.7) else 3
         src = gen_program(ctx.rng, nparts)
@@ -118,35 +246,28 @@ def run(ctx):
                 solo_ops[f] = [["PATH", f + "_start", True]] + ops
         if len(solo_ops) < 2:
             continue
-        fa, fb = flows[0], flows[1]
+        fa, fb = [f for f in flows if f in solo_ops][:2]
+        # which part (if any) lives in the DEFAULT flow; the others get a named flow each
+        dflt = ctx.rng.choice([fa, fb, fa, fb, None])
+        names = {f: (None if f == dflt else "F" + f) for f in solo_ops}
+        pid = f"p{n}"
         for f in solo_ops:
-            cid = f"p{n}|solo{f}"
-            script = [["SWITCH", "F" + f]] + solo_ops[f]
-            cases.append(dict(id=cid, ink=src, seed=42, fuel=30000, script=script + [["STACKINFO"]]))
-            meta[cid] = dict(kind="solo", flow=f, tags=[None, None] + [f] * len(solo_ops[f]) + [None])
+            c, m = solo_case(f"{pid}|solo{f}", src, f, names[f], solo_ops[f])
+            cases.append(c); meta[c["id"]] = m
         k = 0
         for il in interleavings(solo_ops[fa], solo_ops[fb], 35 if ctx.quick() else 70, ctx.rng):
             k += 1
-            script, tags, cur = [], [None], None
-            extra_at = ctx.rng.randrange(len(il)) if ctx.rng.random() < 0.5 else -1
-            extra_kind = ctx.rng.choice(["save", "remove-third", "switch-back"])
-            for pos, (who, op) in enumerate(il):
-                f = fa if who == "A" else fb
-                if pos == extra_at:
-                    if extra_kind == "save":
-                        script += [["SAVE", "s"], ["LOADNEW", "s"]]; tags += [None, None]
-                    elif extra_kind == "remove-third":
-                        script += [["SWITCH", "Fz"], ["SWITCH", "F" + f], ["REMOVE_FLOW", "Fz"]]; tags += [None] * 3
-                        cur = f
-                    else:
-                        script += [["SWITCH_DEFAULT"], ["SWITCH", "F" + f]]; tags += [None, None]
-                        cur = f
-                if cur != f:
-                    script.append(["SWITCH", "F" + f]); tags.append(None); cur = f
-                script.append(op); tags.append(f)
-            cid = f"p{n}|il{k}"
+            il = [(fa if who == "A" else fb, op) for who, op in il]
+            # scaffolding detours at 0-3 of the interleaving points, kinds drawn independently
+            nx = ctx.rng.choice([0, 1, 1, 2, 2, 3])
+            extras_at = {p: ctx.rng.choice(EXTRA_KINDS) for p in ctx.rng.sample(range(len(il)), min(nx, len(il)))}
+            remfin = {f for f in (fa, fb) if ctx.rng.random() < 0.3}
+            script, tags, lastx = build_interleaved(ctx.rng, il, names, extras_at, remfin)
+            for x in set(lastx):
+                kinds_used[str(x)] = kinds_used.get(str(x), 0) + 1
+            cid = f"{pid}|il{k}"
             cases.append(dict(id=cid, ink=src, seed=42, fuel=30000, script=script))
-            meta[cid] = dict(kind="il", n=n, tags=tags, flows=[fa, fb], extra=extra_kind if extra_at >= 0 else None)
+            meta[cid] = dict(kind="il", n=pid, tags=tags, lastx=lastx, flows=[fa, fb], default=dflt)
     res = {r["id"]: r for r in vlib.run_inkdrive(cases, exe)}
     fails, n_checked = [], 0
     for cid, m in meta.items():
@@ -160,31 +281,37 @@ def run(ctx):
             fails.append(dict(key="panic", case=case)); continue
         got = flow_lines(r["lines"], m["tags"])
         n_checked += 1
+        first = None                     # the EARLIEST disturbed transcript line over all flows of the case
         for f in m["flows"]:
-            solo = res.get(f"p{m['n']}|solo{f}")
+            solo = res.get(f"{m['n']}|solo{f}")
             if not solo or solo.get("out_of_fuel"):
                 continue
-            want = flow_lines(solo["lines"], meta[f"p{m['n']}|solo{f}"]["tags"]).get(f, [])
+            want = flow_lines(solo["lines"], meta[f"{m['n']}|solo{f}"]["tags"]).get(f, [])
             have = got.get(f, [])
             if want != have:
                 d = next((i for i, (x, y) in enumerate(zip(want, have)) if x != y), min(len(want), len(have)))
-                key = "flow-disturbed-by-other-flow" + (":after-" + m["extra"] if m["extra"] else "")
-                fails.append(dict(key=key, case=case, flow=f,
-                                  alone=want[d] if d < len(want) else None,
-                                  interleaved=have[d] if d < len(have) else None))
-                break
+                idx = [i for i, t_ in enumerate(m["tags"]) if t_ == f]
+                at = idx[d] if d < len(idx) else len(m["tags"])
+                if first is None or at < first[0]:
+                    first = (at, f, want[d] if d < len(want) else None, have[d] if d < len(have) else None)
+        if first is not None:
+            at, f, alone, inter = first
+            # class: the scaffolding detour that most recently preceded the first disturbed line
+            lx = m["lastx"][at] if at < len(m["lastx"]) else None
+            key = "flow-disturbed-by-other-flow" + (":after-" + lx if lx else "")
+            fails.append(dict(key=key, case=case, flow=f, script_line=at, alone=alone, interleaved=inter))
     # correspondence (scripts with SAVE need the save-aware model)
     plain = [c for c in cases if not any(o[0] in ("SAVE", "LOADNEW", "STACKINFO") for o in c["script"])]
     ctx.rng.shuffle(plain)
     plain = plain[: (40 if ctx.quick() else 400)]
     mcases = [dict(c, id="m:" + c["id"]) for c in plain]
-    cres = engine.compare(mcases, exe, sw)
+    cres = engine.compare(mcases, exe, sw, shard=(8 if ctx.quick() else 40))
     try:
         import engine_save
         withsave = [c for c in cases if any(o[0] == "SAVE" for o in c["script"])]
         ctx.rng.shuffle(withsave)
         scases = [dict(c, id="s:" + c["id"]) for c in withsave[: (15 if ctx.quick() else 150)]]
-        sres = engine_save.compare(scases)
+        sres = engine_save.compare(scases, shard=(5 if ctx.quick() else 24))
         # the save-aware model belongs to C02; here a model-side failure is only noted
         bad = [r for r in sres if r["status"] == "model-error"]
         if bad:
@@ -198,9 +325,14 @@ def run(ctx):
     ctx.coverage.update(dict(
         evaluations=len(cases), distinct_nontrivial=n_checked,
         rule="programs of 2-3 mutually disjoint parts (own globals, knots, tunnel, thread, glue, sticky/once-only "
-             "choices), one flow per part; all interleavings of the two flows' operations (exhaustive when <= the "
-             "limit, else sampled), with SAVE+LOADNEW / a third flow created and removed / a detour through the "
-             "default flow at a random point; each flow's transcript compared with its solo transcript",
+             "choices, temporaries declared before a pause and read/re-assigned after it in knot, tunnel and function "
+             "frames), one flow per part, one part possibly in the DEFAULT flow; all interleavings of the two flows' "
+             "operations (exhaustive when <= the limit, else sampled), with 0-3 detours at random points: SAVE+LOADNEW "
+             "/ a third flow created and removed while not current / created and removed WHILE CURRENT (with or "
+             "without having run) / a detour through another flow and back, and a finished named flow removed while "
+             "current; each flow's transcript (text, choices, error and warning counts) compared with its solo "
+             "transcript; plus fixed regression scripts",
+        detours_used=kinds_used,
         samples=[cases[-1]["script"] if cases else []],
         traces_validated_against_impl=agree, correspondence_mismatches=len(mism), programs=nprog))
     seen = set()
